@@ -2981,6 +2981,21 @@ def _exec(stmts, env):
             raise _NoEval(short(s, 40))
 
 
+def _opens(repo, call):
+    """the call goes to a module-level helper of polygon_filter.py that
+    opens a file and returns the handle"""
+    if not isinstance(call.func, ast.Name):
+        return False
+    try:
+        fn = repo.func(POLY, call.func.id)
+    except AnalysisError:
+        return False
+    return any(isinstance(x, ast.Call) and last_attr(x) == "open"
+               for x in ast.walk(fn)) and any(
+        isinstance(x, ast.Return) and x.value is not None
+        for x in ast.walk(fn))
+
+
 def _one_handle(ctx, repo):
     """save(path, ret_fobj=True) opens the path in append mode and hands
     the buffered handle out un-closed.  A caller that saves several
@@ -3026,16 +3041,28 @@ def _one_handle(ctx, repo):
             continue
         # (ii) one handle opened by the caller outside the loop
         if isinstance(dest, ast.Name):
-            opened = [n for n in walk(body)
-                      if (isinstance(n, ast.withitem)
-                          and n.optional_vars is not None
-                          and txt(n.optional_vars) == dest.id
-                          and last_attr(n.context_expr) == "open")
-                      or (isinstance(n, ast.Assign)
-                          and txt(n.targets[0]) == dest.id
-                          and any(isinstance(x, ast.Call)
-                                  and last_attr(x) == "open"
-                                  for x in ast.walk(n.value)))]
+            def _openers(name, depth=0):
+                """assignments / with-items that bind `name` (or a name it
+                is copied from) to an opened file"""
+                out = []
+                for n in walk(body):
+                    if isinstance(n, ast.withitem) \
+                            and n.optional_vars is not None \
+                            and txt(n.optional_vars) == name \
+                            and last_attr(n.context_expr) == "open":
+                        out.append(n)
+                    elif isinstance(n, ast.Assign) \
+                            and txt(n.targets[0]) == name:
+                        if any(isinstance(x, ast.Call)
+                               and (last_attr(x) == "open"
+                                    or _opens(repo, x))
+                               for x in ast.walk(n.value)):
+                            out.append(n)
+                        elif isinstance(n.value, ast.Name) and depth < 4 \
+                                and _openers(n.value.id, depth + 1):
+                            out.append(n)
+                return out
+            opened = _openers(dest.id)
             inside = {id(x) for x in ast.walk(loop)}
             rebound = [n for n in ast.walk(loop)
                        if isinstance(n, ast.Name) and n.id == dest.id
